@@ -132,10 +132,16 @@ func main() {
 			bezierCase(o, i, genQuad(r), *probe, stats)
 		case 3, 4, 5, 6:
 			bezierCase(o, i, genCube(r), *probe, stats)
-		case 7, 8:
+		case 7:
 			arcCase(o, i, r, *probe, stats)
+		case 8:
+			if !*probe {
+				xmonoCase(o, i, r)
+			}
 		default:
-			publicCase(o, i, r)
+			if !*probe {
+				publicCase(o, i, r)
+			}
 		}
 	}
 	if *probe {
@@ -227,11 +233,72 @@ func bezierCase(o *out.W, i int, bc bcase, probe bool, stats map[string]*stat) {
 			}
 			continue
 		}
-		term := fmt.Sprintf("%s %s %s %s %s %s", kind, pts(c), cq.F(tol), cq.Bool(ok), pts(vs), cq.Floats(ts))
-		if !ok {
-			term = fmt.Sprintf("%s %s %s false nil nil", kind, pts(c), cq.F(tol))
-		}
-		desc := map[string]interface{}{"curve": svgOf(c), "tol": tol, "go_vertices": ptsDesc(vs), "params": ts, "panic": pmsg}
-		o.Emit(out.Case{I: i, Fam: bc.fam, Coq: term, Desc: desc, Tags: []string{kind}})
+		_ = pmsg
+		_ = ts
+		_ = kind
+		emitBezier(o, i, bc, tol)
 	}
+}
+
+// Kof is the constant multiple of the tolerance used by the judge for each degree (Corr/C03.v Kquad, Kcube).
+func Kof(c []P) float64 {
+	if len(c) == 3 {
+		return 2
+	}
+	return 8
+}
+
+// emitBezier runs the flattener on one curve at one tolerance and prints the case with its certificate:
+// the recovered parameters and, for pieces whose float bound is above K/2, a pair of parameters inside the piece
+// between which the tangent turns by 90 degrees or more (the known trigger), if the sampling finds one.
+func emitBezier(o *out.W, i int, bc bcase, tol float64) {
+	c := bc.ctrl
+	kind := "CQuad"
+	if len(c) == 4 {
+		kind = "CCube"
+	}
+	vs, pmsg, ok := flattenBez(c, tol)
+	var ts []float64
+	var wit []string
+	if ok {
+		if len(vs) == 1 { // a path that collapsed to its start point: the degenerate segment [v,v]
+			vs = append(vs, vs[0])
+		}
+		ts = roundParams(recoverParams(c, vs))
+		for j := 0; j+1 < len(ts); j++ {
+			q := subCurve(c, ts[j], ts[j+1])
+			var b float64
+			if len(c) == 3 {
+				b = quadPieceBound2(q)
+			} else {
+				b = cubePieceBound2(q)
+			}
+			if math.Sqrt(b) > Kof(c)/2*tol {
+				if t1, t2, found := turnWitness(c, ts[j], ts[j+1]); found {
+					wit = append(wit, cq.Pair(cq.F(t1), cq.F(t2)))
+				}
+			}
+		}
+	}
+	term := fmt.Sprintf("%s %s %s false nil nil nil", kind, pts(c), cq.F(tol))
+	if ok {
+		term = fmt.Sprintf("%s %s %s true %s %s %s", kind, pts(c), cq.F(tol), pts(vs), cq.Floats(ts), cq.List(wit))
+	}
+	desc := map[string]interface{}{"curve": svgOf(c), "tol": tol, "go_vertices": ptsDesc(vs), "params": ts, "panic": pmsg}
+	o.Emit(out.Case{I: i, Fam: bc.fam, Coq: term, Desc: desc, Tags: []string{kind}})
+}
+
+// roundParams rounds the recovered parameters to multiples of 2^-24 (keeps the exact arithmetic of the Coq checker
+// small); the judge's slack 2^-18 covers |B'| * 2^-25. Rounding is skipped where it would break strict monotonicity.
+func roundParams(ts []float64) []float64 {
+	out := make([]float64, len(ts))
+	copy(out, ts)
+	const S = 1 << 24
+	for i := 1; i+1 < len(ts); i++ {
+		r := math.Round(ts[i]*S) / S
+		if r > out[i-1] && r < ts[i+1] && r < 1 && r > 0 {
+			out[i] = r
+		}
+	}
+	return out
 }
